@@ -12,7 +12,12 @@ var All = map[string]*fw.Prop{
 	"C06": C06,
 	"C08": C08,
 	"C09": C09,
+	"C12": C12,
+	"C13": C13,
 	"C14": C14,
 	"C16": C16,
 	"C17": C17,
 }
+
+// StopServers ends the server subprocesses the socket-level checks started.
+func StopServers() { sysStopAll() }
